@@ -840,6 +840,8 @@ pub struct Driver {
     pub updates: [u64; 4],
     pub sol_expected: u8,
     pub uns_expected: u8,
+    /// the latest request if it was a READ: (sequence number, asks for static data)
+    pub last_read: Option<(u8, bool)>,
 }
 
 impl Driver {
@@ -1010,6 +1012,39 @@ impl Driver {
         if let Some(f) = self.sim.failure() {
             return Some(Violation::new("C03.X0", f.clone(), f));
         }
+        // Q1: a solicited response that follows a READ (answered at once or deferred until the
+        // unsolicited series ends) carries only what *that* READ asked for -- nothing of a
+        // request it superseded
+        if new_request {
+            self.last_read = match ev {
+                Ev::Read(..) | Ev::ReadBinaryEvents => Some((self.last_seq, false)),
+                Ev::ReadClass0 => Some((self.last_seq, true)),
+                _ => None,
+            };
+        }
+        if reconnect {
+            self.last_read = None;
+        }
+        if let Some((seq, wants_static)) = self.last_read {
+            for r in step.resps() {
+                if r.uns() || r.func != fc::RESPONSE {
+                    continue;
+                }
+                if let Ok(hs) = r.headers() {
+                    for h in hs {
+                        let is_static = matches!(h.group, 1 | 3 | 10 | 20 | 21 | 30 | 40 | 110);
+                        let is_event = matches!(h.group, 2 | 4 | 11 | 22 | 23 | 32 | 42 | 111);
+                        if (is_static && !wants_static) || (is_event && wants_static) {
+                            return Some(Violation::new(
+                                "C03.Q1",
+                                "response-carries-objects-the-read-did-not-ask-for",
+                                format!("READ seq {seq} asked for {} only; response {} carries g{}v{}", if wants_static { "class 0" } else { "events" }, app::hex(&r.raw[..r.raw.len().min(24)]), h.group, h.var),
+                            ));
+                        }
+                    }
+                }
+            }
+        }
         // a READ during an unsolicited confirm wait is deferred: it does not end a solicited wait
         // (none can be active then) and selection applies when it is answered
         let v = self.ledger.observe(&step, confirm, new_request, disable, reconnect, selected);
@@ -1068,7 +1103,7 @@ pub fn start_with_iin(cfg: &OCfg, unsol: bool, cto: bool) -> Driver {
 pub fn start_raw(cfg: &OCfg, cto: bool) -> Driver {
     let mut sim = OSim::new(cfg, 1);
     setup_db(&mut sim, cto);
-    Driver { sim, last_step: None, last_sent: None, ledger: Ledger::default(), last_seq: 0, updates: [0; 4], sol_expected: 0, uns_expected: 0 }
+    Driver { sim, last_step: None, last_sent: None, ledger: Ledger::default(), last_seq: 0, updates: [0; 4], sol_expected: 0, uns_expected: 0, last_read: None }
 }
 
 pub fn start(cfg: &OCfg, unsol: bool, cto: bool) -> Driver {
@@ -1082,7 +1117,7 @@ pub fn start(cfg: &OCfg, unsol: bool, cto: bool) -> Driver {
     }
     sim.take_out();
     sim.take_cb();
-    Driver { sim, last_step: None, last_sent: None, ledger: Ledger::default(), last_seq, updates: [0; 4], sol_expected: 0, uns_expected: 0 }
+    Driver { sim, last_step: None, last_sent: None, ledger: Ledger::default(), last_seq, updates: [0; 4], sol_expected: 0, uns_expected: 0, last_read: None }
 }
 
 impl Scenario for C03 {
